@@ -345,6 +345,20 @@ thread_local! {
     /// which builder entry points `build_seq` uses (all documented as equivalent ways of adding the same components)
     pub static BUILD_STYLE: std::cell::Cell<u8> = const { std::cell::Cell::new(0) };
 }
+thread_local! {
+    /// how a condition node is built: 0 one scripted condition, 1 `c & c'`, 2 `c | c'`, 3 `!c` (c' has the id + 500)
+    pub static COND_STYLE: std::cell::Cell<u8> = const { std::cell::Cell::new(0) };
+}
+pub const COND_STYLES: [&str; 4] = ["c", "c & c'", "c | c'", "!c"];
+fn cond_box(id: u16) -> Box<dyn Condition<TagP>> {
+    let c = |i: u16| -> Box<dyn Condition<TagP>> { Box::new(ScriptCond { id: i }) };
+    match COND_STYLE.with(|s| s.get()) {
+        1 => c(id) & c(id + 500),
+        2 => c(id) | c(id + 500),
+        3 => !c(id),
+        _ => c(id),
+    }
+}
 pub const BUILD_STYLES: [&str; 6] = ["do_", "do_if_some_+assert", "do_many_(Vec)", "do_many_(filtered iterator)", "do_many_(chained iterators)", "do_(head)+debug(effect)"];
 
 /// A leaf without its execute-time effect (which a following `debug` step performs).
@@ -409,9 +423,9 @@ pub fn build_seq(mut b: ConfigurationBuilder<TagP>, t: &Tree) -> ConfigurationBu
                 }
                 _ => b.do_(leaf_box(*id, *e)),
             },
-            Node::While(id, body) => b.while_(Box::new(ScriptCond { id: *id }), |bb| build_seq(bb, body)),
-            Node::If(id, body) => b.if_(Box::new(ScriptCond { id: *id }), |bb| build_seq(bb, body)),
-            Node::IfElse(id, x, y) => b.if_else_(Box::new(ScriptCond { id: *id }), |bb| build_seq(bb, x), |bb| build_seq(bb, y)),
+            Node::While(id, body) => b.while_(cond_box(*id), |bb| build_seq(bb, body)),
+            Node::If(id, body) => b.if_(cond_box(*id), |bb| build_seq(bb, body)),
+            Node::IfElse(id, x, y) => b.if_else_(cond_box(*id), |bb| build_seq(bb, x), |bb| build_seq(bb, y)),
             Node::Scope(_, body) => b.scope_(|bb| build_seq(bb, body)),
             Node::ScopeWith(_, body) => b.do_(Scope::new_with(scope_init, build_seq(Configuration::builder(), body).build_component(), scope_merge)),
         };
@@ -419,10 +433,13 @@ pub fn build_seq(mut b: ConfigurationBuilder<TagP>, t: &Tree) -> ConfigurationBu
     b
 }
 
+/// `style`: low 4 bits = builder entry points (BUILD_STYLES), high 4 bits = condition composition (COND_STYLES)
 pub fn build_styled(t: &Tree, style: u8) -> Configuration<TagP> {
-    BUILD_STYLE.with(|c| c.set(style));
+    BUILD_STYLE.with(|c| c.set(style & 15));
+    COND_STYLE.with(|c| c.set(style >> 4));
     let c = build_seq(Configuration::builder(), t).build();
     BUILD_STYLE.with(|c| c.set(0));
+    COND_STYLE.with(|c| c.set(0));
     c
 }
 
@@ -454,11 +471,30 @@ pub struct Interp<'a> {
     tape: &'a [(u8, u32)], // (kind, choice) as recorded from the implementation run
     cursor: usize,
     invocation: u32,
+    cond_style: u8,
 }
 
 impl<'a> Interp<'a> {
     pub fn new(initial: Vec<MScope>, tape: &'a [(u8, u32)]) -> Self {
-        Interp { scopes: initial, trace: vec![], tape, cursor: 0, invocation: 0 }
+        Interp { scopes: initial, trace: vec![], tape, cursor: 0, invocation: 0, cond_style: 0 }
+    }
+    pub fn new_styled(initial: Vec<MScope>, tape: &'a [(u8, u32)], cond_style: u8) -> Self {
+        Interp { scopes: initial, trace: vec![], tape, cursor: 0, invocation: 0, cond_style }
+    }
+    /// the scripted conditions a condition node consists of, in operand order
+    fn cond_ids(&self, id: u16) -> Vec<u16> {
+        match self.cond_style {
+            1 | 2 => vec![id, id + 500],
+            _ => vec![id],
+        }
+    }
+    /// init (phase 0) or require (phase 1) of a condition node: every operand in order, the first error ends it
+    fn cond_phase(&mut self, phase: u8, id: u16) -> Result<(), Fail> {
+        for c in self.cond_ids(id) {
+            self.rec(phase, c, true);
+            self.fault()?;
+        }
+        Ok(())
     }
     fn next(&mut self, kind: usize) -> u32 {
         // replay the recorded environment answers in order; a kind mismatch means the
@@ -510,18 +546,15 @@ impl<'a> Interp<'a> {
                 }
                 Node::While(id, body) => {
                     self.scopes.last_mut().unwrap().it = Some(0);
-                    self.rec(0, *id, true);
-                    self.fault()?;
+                    self.cond_phase(0, *id)?;
                     self.init(body)?;
                 }
                 Node::If(id, body) => {
-                    self.rec(0, *id, true);
-                    self.fault()?;
+                    self.cond_phase(0, *id)?;
                     self.init(body)?;
                 }
                 Node::IfElse(id, a, b) => {
-                    self.rec(0, *id, true);
-                    self.fault()?;
+                    self.cond_phase(0, *id)?;
                     self.init(a)?;
                     self.init(b)?;
                 }
@@ -542,13 +575,11 @@ impl<'a> Interp<'a> {
                     }
                 }
                 Node::While(id, body) | Node::If(id, body) => {
-                    self.rec(1, *id, true);
-                    self.fault()?;
+                    self.cond_phase(1, *id)?;
                     self.require(body)?;
                 }
                 Node::IfElse(id, a, b) => {
-                    self.rec(1, *id, true);
-                    self.fault()?;
+                    self.cond_phase(1, *id)?;
                     self.require(a)?;
                     self.require(b)?;
                 }
@@ -558,9 +589,19 @@ impl<'a> Interp<'a> {
         Ok(())
     }
     fn evaluate(&mut self, id: u16) -> Result<bool, Fail> {
-        self.rec(2, id, true);
-        self.fault()?;
-        Ok(self.next(K_COND) == 1)
+        // every operand is evaluated, in order (no Boolean short-circuit); the first error is the result
+        let mut vals = vec![];
+        for c in self.cond_ids(id) {
+            self.rec(2, c, true);
+            self.fault()?;
+            vals.push(self.next(K_COND) == 1);
+        }
+        Ok(match self.cond_style {
+            1 => vals.iter().all(|v| *v),
+            2 => vals.iter().any(|v| *v),
+            3 => !vals[0],
+            _ => vals[0],
+        })
     }
     pub fn execute(&mut self, t: &Tree) -> Result<(), Fail> {
         for n in t {
@@ -576,8 +617,7 @@ impl<'a> Interp<'a> {
                 }
                 Node::While(id, body) => {
                     // the condition is re-initialised on entry
-                    self.rec(0, *id, true);
-                    self.fault()?;
+                    self.cond_phase(0, *id)?;
                     while self.evaluate(*id)? {
                         self.execute(body)?;
                         match self.scopes.iter_mut().rev().find(|s| s.it.is_some()) {
